@@ -32,8 +32,9 @@
     (P1 `assert_ne!(headers.coe_header.service, CoeService::Emergency)` was removed by fix-c16-emergency: the service is
         now looked at on the 8-byte mailbox + CoE header before the SDO header is decoded)
     (P2 `headers.header.length - 3` on u16 was repaired by fix-c16-segment-length: `checked_sub` -> Error::Internal)
-    P3  `headers.mailbox.length as usize - COE_HEADER_AND_LIST_TYPE_SIZE`           (send_sdo_info_service; checked builds)
-    P4  `response[..length]`                                                        (send_sdo_info_service; all builds)
+    (P3 `headers.mailbox.length as usize - COE_HEADER_AND_LIST_TYPE_SIZE` and P4 `response[..length]` were repaired by
+        fix-c16-sdo-info-length: `checked_sub` / `get(..length)` -> Error::Internal)
+  No panic branch is left in the model: `coe_total` (Props/C16.lean) is unconditional.
   All other slice accesses in this code are `get(..).ok_or(..)` and are modelled as the error they return.
   Operations that could panic in principle but cannot be reached with a panicking argument, and are therefore not
   branches of the model: `fmt::unwrap!(fetch_update(..))` in mailbox_counter (the closure always returns `Some`);
@@ -96,13 +97,6 @@ def Res.bind {α β : Type} (x : Res α) (f : α → Res β) : Res β :=
 def Res.map {α β : Type} (f : α → β) (x : Res α) : Res β := x.bind fun a => .ok (f a)
 
 /-! ### Integer operations that depend on the build profile -/
-
-/-- usize (64 bit) `a - b`. -/
-def subUsize (m : Mode) (a b : Nat) : Res Nat :=
-  if b ≤ a then .ok (a - b)
-  else match m with
-    | .checked => .panic "attempt to subtract with overflow"
-    | .wrapping => .ok (a + 18446744073709551616 - b)
 
 /-! ### `ReceivedPdu`: a view into the frame buffer -/
 
@@ -580,16 +574,18 @@ inductive InfoStep where
 def infoTrim (p : Pdu) (consumed : Bool) : Pdu :=
   if !consumed then (p.trimFront LEN_ListResponse).trimFront 2 else p.trimFront LEN_ListResponse
 
-def infoStep (cfg : Cfg) (p : Pdu) (consumed : Bool) (buf : List Nat) : Res InfoStep :=
+def infoStep (_cfg : Cfg) (p : Pdu) (consumed : Bool) (buf : List Nat) : Res InfoStep :=
   (unpackListResponse p.bytes).bind fun h =>
     if h.opCode == opListResponse then
-      -- P3: `headers.mailbox.length as usize - COE_HEADER_AND_LIST_TYPE_SIZE`
-      (subUsize cfg.mode h.mailbox.length COE_HEADER_AND_LIST_TYPE_SIZE).bind fun length =>
-        -- P4: `&response[..length]`
-        if length > (infoTrim p consumed).len then .panic "range end index out of range for slice"
-        -- heapless `extend_from_slice`: refuses (copies nothing) when it does not fit
-        else if buf.length + ((infoTrim p consumed).bytes.take length).length > INFO_BUF_CAP then .err .internal
-        else .ok (.frag (buf ++ (infoTrim p consumed).bytes.take length) h.incomplete)
+      -- `(headers.mailbox.length as usize).checked_sub(COE_HEADER_AND_LIST_TYPE_SIZE).ok_or(Error::Internal)?`
+      if h.mailbox.length < COE_HEADER_AND_LIST_TYPE_SIZE then .err .internal
+      -- `response.get(..length).ok_or(Error::Internal)?`  (fix-c16-sdo-info-length)
+      else if h.mailbox.length - COE_HEADER_AND_LIST_TYPE_SIZE > (infoTrim p consumed).len then .err .internal
+      -- heapless `extend_from_slice`: refuses (copies nothing) when it does not fit
+      else if buf.length + ((infoTrim p consumed).bytes.take (h.mailbox.length - COE_HEADER_AND_LIST_TYPE_SIZE)).length >
+          INFO_BUF_CAP then .err .internal
+      else .ok (.frag (buf ++ (infoTrim p consumed).bytes.take (h.mailbox.length - COE_HEADER_AND_LIST_TYPE_SIZE))
+        h.incomplete)
     else .ok .skip
 
 /-- The `loop` of `send_sdo_info_service` over the messages queued in the OUT mailbox. Returns the result, the
